@@ -98,11 +98,16 @@ Definition a_update (s : abook) (p old new : Z) : abook :=
 Definition a_clear (s : abook) (p : Z) : abook :=
   mkA (a_now s) (filter (fun e => negb (ep e =? p)) (a_ents s)) (remove_rec p (a_recs s)).
 
-(* addresses of the previous record that the new one no longer lists,
-   except those in a connected TTL class *)
+(* for each address of the previous record that the new one no longer lists:
+   remove the book's entry for it, unless it is in a connected TTL class *)
 Definition evict_superseded (p : Z) (prev new : list Z) (ents : list aent) : list aent :=
-  filter (fun e => negb ((ep e =? p) && zmem (ea e) prev && negb (zmem (ea e) new)
-                         && negb (conn (ettl e)))) ents.
+  fold_left (fun l a =>
+               if zmem a new then l
+               else match find_ent p a l with
+                    | Some e => if conn (ettl e) then l else remove_ent p a l
+                    | None => l
+                    end)
+            prev ents.
 
 (* returns the new book and whether the record was accepted *)
 Definition a_consume (s : abook) (p seq id : Z) (addrs : list raw) (ttl : Z) : abook * bool :=
